@@ -193,6 +193,44 @@ fn poll_expired_timers_loop(timers_cell: &mut TimerWheel, mut poll_events: Vec<P
         ensures
             due_exactly_popped(timers0, timers@, now), now_was_read == clock_read(now),
         decreases timers@.len(),
+//@ alt
+//@ rw R10 * <<self.timers.borrow_mut()>> => <<timers_cell>>
+//@ sig
+/// (the same once more for a body that also looks at the number of ready sources the wait returned: `ready`)
+fn poll_expired_timers_loop(timers_cell: &mut TimerWheel, mut poll_events: Vec<PollEvent>, start: Instant, timeout: Option<Duration>, ready: usize) -> (r: crate::Result<Vec<PollEvent>>)
+//@ entry
+    let ghost fd_events = poll_events@;
+    let ghost timers0 = timers_cell@;
+    let ghost mut popped: Seq<TimeoutData> = Seq::empty();
+//@ before <<while let Some((_, token)) = timers.next_expired(now)>>
+        let ghost mut prev = *timers;
+        // (whether `now` is a clock value that has been read is decided by the code before the loop; carried through it)
+        let ghost now_was_read: bool = clock_read(now);
+//@ atloopstart <<while let Some>>
+            proof {
+                assert(forall|y: TimeoutData| timers@.count(y) > 0 ==> prev@.count(y) > 0);
+                popped = popped.push(prev.top());
+            }
+//@ atloopend <<while let Some>>
+            proof { prev = *timers; }
+//@ loop 1
+        invariant_except_break
+            prev == *timers,
+        invariant
+            popped_in_order(popped, timers0),
+            popped.len() == poll_events@.len() - fd_events.len(),
+            forall|i: int| 0 <= i < popped.len() ==> poll_events@[fd_events.len() + i].token == (#[trigger] popped[i]).tok(),
+            popped.len() > 0 ==> forall|y: TimeoutData| timers@.count(y) > 0 ==> popped.last().ns() <= #[trigger] y.ns(),
+            forall|y: TimeoutData| #[trigger] timers@.count(y) <= timers0.count(y),
+            forall|y: TimeoutData| #[trigger] timers@.count(y) < timers0.count(y) ==> y.ns() <= nanos(now),
+            poll_events@.len() == fd_events.len() + (timers0.len() - timers@.len()),
+            timers@.len() <= timers0.len(), now_was_read == clock_read(now),
+            forall|i: int| 0 <= i < fd_events.len() ==> poll_events@[i] == fd_events[i],
+            forall|i: int| fd_events.len() <= i < poll_events@.len() ==>
+                (#[trigger] poll_events@[i]).readiness.readable && !poll_events@[i].readiness.writable && !poll_events@[i].readiness.error,
+        ensures
+            due_exactly_popped(timers0, timers@, now), now_was_read == clock_read(now),
+        decreases timers@.len(),
 //@ endslice
 
 impl Poll {
